@@ -57,7 +57,8 @@ def nest_call(d):
 
 
 def nest_slice_index(d):
-    return "#d8 " + "1[" * d + "0:0" + ":0]" * (d - 1) + "]\n" if d > 0 else "#d8 1\n"
+    # 1[1[1[0:0]:0]:0]
+    return ("#d8 " + "1[" * d + "0:0" + "]:0" * (d - 1) + "]\n") if d > 0 else "#d8 1\n"
 
 
 def nest_slice_inner(d):
